@@ -376,7 +376,9 @@ let judge0 op args got =
                     if Zar.gt d lim then (lim, Zar.zero, Zar.sub e1 lim)
                     else if Zar.lt d (Zar.neg lim) then (Zar.zero, lim, Zar.sub e2 lim)
                     else let mn = Zar.min e1 e2 in (Zar.sub e1 mn, Zar.sub e2 mn, mn) in
-                  let shift ap = (match ap with AExact (s, e) -> AExact (s, Zar.add e k) | AInexact (s, e, r) -> AInexact (s, Zar.add e k, r)) in
+                  (* a zero result is stored as (0, 0) whatever the exponents of the operands were *)
+                  let sh s e = if Zar.sign s = 0 then e else Zar.add e k in
+                  let shift ap = (match ap with AExact (s, e) -> AExact (s, sh s e) | AInexact (s, e, r) -> AInexact (s, sh s e, r)) in
                   let f = if sub = "add" then ctx_add_n_x else ctx_sub_n_x in
                   (t1, t2, k, Some (raw (shift (f b p m s1 t1 s2 t2))))) in
             let x = (match sub with
@@ -391,7 +393,7 @@ let judge0 op args got =
                 if s = "inf" || s = "-inf" then fail "finite-result"
                 else if not (Zar.equal (usz prec) p) then fail ("precision-" ^ hx p)
                 else if not (is_normal b (z s) (z e)) then fail "result-in-normal-form"
-                else if check_contract b p m x (z s) (Zar.sub (z e) k) (flag_of f) then
+                else if check_contract b p m x (z s) (if Zar.sign (z s) = 0 then z e else Zar.sub (z e) k) (flag_of f) then
                   pass ~extra:(fid ^ " cls=float-extreme-exponent-" ^ sub ^ (if Zar.gt (Zar.abs (Zar.sub e1 e2)) (Zar.pow (zi 2) 63) then "-far" else "")) ()
                 else fail "rounding-contract"
             | _ -> fail (match model with Some t -> "ok xr=0 " ^ t | None -> "ok xr=0 sig exp flag prec")
